@@ -146,6 +146,7 @@ func init() {
 		w[k] = v
 	}
 	base.Gen.Weights = w
+	base.Gen.SimPct = 10 // node-local simulations on the node that never stops; the restarted node never sees them
 	registerWorldProp(&base)
 }
 
@@ -304,6 +305,9 @@ func TestC14(t *testing.T) {
 			}
 			if len(rs) > 1 {
 				st.Labels["multi-restart-sets"]++
+			}
+			if m.C.Simulated > 0 {
+				st.Labels["history-with-node-local-simulations"]++
 			}
 			if nt {
 				key := shortHash(hist + fmt.Sprint(rs))
